@@ -27,6 +27,8 @@ ASSUMPTIONS = [
 
 def bounds(tier):
     return dict(generic="all enzyme geometries x {module, vector, signature-typed part} x default + boundary region lengths x all n rotations x {>>, fresh}",
+                presentations="BsaI, BbsI, FokI, default lengths: every rotation also as plain SeqRecord (topology circular / Circular / CIRCULAR / absent), MutableSeq, "
+                              "topology set after construction, wrapped from a SeqRecord, fully annotated; and in lower / alternating case",
                 kit="all concrete kit classes x 2 fills x 2 star lengths x all n rotations x {>>, fresh}",
                 registry=("assigned class: structure window + stride n/16 (fresh)" if tier == "quick"
                           else "assigned class: all n rotations (fresh) + window (>>); every accepting class: structure window"))
